@@ -82,9 +82,9 @@ def generate(seed, tier, k):
             # parameter study on the same analysis object: the density of an item is changed
             ops.append({"op": "density", "item": r.randrange(len(doc["items"])), "factor": r.choice([0.25, 2.0, 4.0])})
         elif i == 0 or r.random() < 0.6:
-            ops.append({"op": "evaluate", "k": r.choice([1, 2, 3, 6, 6, 8, 10]), "v0_seed": r.randrange(1 << 30), "ncv": r.choice([None, None, 20, 30]), "parallel": False})
+            ops.append({"op": "evaluate", "k": r.choice([1, 2, 3, 6, 6, 8, 10]), "v0_seed": r.randrange(1 << 30), "ncv": r.choice([None, None, 20, 30]), "parallel": False, "x0": r.random() < 0.2})
         else:
-            ops.append({"op": "extract", "n": r.choice([0, 0, 1, -1, 2]), "inplace": r.random() < 0.5})
+            ops.append({"op": "extract", "n": r.choice([0, 0, 1, -1, 2]), "inplace": r.random() < 0.5, "x0": r.random() < 0.2})
     doc["ops"] = ops
     doc["twin"] = r.random() < 0.3 and bc in ("none", "clamp", "points") and not mixed
     if doc["twin"]:
@@ -215,6 +215,8 @@ def run(doc, log):
             M11 = M[np.ix_(dof1, dof1)]
             ncalls = sim.calls
             try:
+                if op.get("x0"):
+                    kw["x0"] = w.field
                 job.evaluate(solver=sim, **kw)
             except BaseException as e:
                 from ..kernel import origin
@@ -301,7 +303,7 @@ def run(doc, log):
             if not (-len(job.eigenvalues) <= n < len(job.eigenvalues)):
                 n = 0
             before = [f.values.copy() for f in w.field.fields]
-            field, freq = job.extract(n=n, inplace=op["inplace"])
+            field, freq = job.extract(n=n, inplace=op["inplace"], **({"x0": w.field} if op.get("x0") else {}))
             lam = job.eigenvalues[n]
             with np.errstate(invalid="ignore"):
                 want = np.sqrt(lam) / (2 * np.pi)
